@@ -488,8 +488,14 @@ class MatrixSum(Expression):
         For MatrixSum(X), gradient w.r.t. X[i,j] is 1 for all elements in X,
         0 for all other variables.
         """
-        my_vars = self.matrix.get_variables()
-        return [Constant(1.0) if var in my_vars else Constant(0.0) for var in variables]
+        if not isinstance(self.matrix, MatrixVariable):
+            return None  # elements are expressions: let autodiff handle it
+        # Count entries per variable: symmetric matrices share off-diagonals
+        counts: dict[Variable, float] = {}
+        for row in self.matrix._variables:
+            for var in row:
+                counts[var] = counts.get(var, 0.0) + 1.0
+        return [Constant(counts.get(var, 0.0)) for var in variables]
 
     def __repr__(self) -> str:
         if isinstance(self.matrix, MatrixVariable):
